@@ -49,6 +49,7 @@ def run(P, rep, tier):
     rep.attempt(r2_mode_dispatch, P, rep, ctx)
     rep.attempt(r3_name_language, P, rep, ctx)
     rep.attempt(r3b_find_files_filter, P, rep, ctx)
+    rep.attempt(r3c_list_records_filter, P, rep, ctx)
     rep.attempt(r4_close_discard, P, rep, ctx)
     rep.attempt(r5_codec, P, rep, ctx)
     rep.attempt(r6_file_list_owners, P, rep, ctx)
@@ -130,6 +131,23 @@ def r3b_find_files_filter(P, rep, ctx, rule="C03.R3"):
             ok = len(name_tests) == 1 and not other
     rep.check(ok, rule, fi.qual, "find_files keeps every globbed file whose name matches the record's name pattern (no further filter)", fi.loc(), construct="find_files filter",
               message=f"find_files drops files by a condition other than the name pattern ({detail or 'unrecognised shape'}): a corrupted / foreign newest container is skipped instead of making the open fail, and the record opens showing an older state")
+
+
+def r3c_list_records_filter(P, rep, ctx, rule="C03.R3"):
+    """list_records reports the record name of EVERY container file in the directory: a file is left out only when its name
+    does not have the form of a container name (the regular expression).  No other test -- in particular no comparison with
+    names seen before -- decides about a file (`foo` must not swallow `foo2` or `foo-bar`)."""
+    fi = P.func(f"{REC}.list_records")
+    f = F(ctx, fi)
+    g = f.g
+    loops = [n for n in g.nodes if n.kind == "for" and ".glob(" in f.x(n.stmt.iter)]
+    if len(loops) != 1:
+        raise AnalysisError("C03.R3: glob loop of list_records not found")
+    body_nodes = g.reach([b for b, lab in g.succ[loops[0].idx] if lab == "iter"], avoid=[loops[0].idx])
+    tests = [n for n in g.nodes if n.idx in body_nodes and n.kind == "test"]
+    other = [norm(f.xe_at(t.idx, t.exprs[0])) for t in tests if not any(k in norm(f.xe_at(t.idx, t.exprs[0])) for k in ("re.match(", "re.fullmatch(", ".match(", ".fullmatch("))]
+    rep.check(not other, rule, fi.qual, "list_records keeps every file whose name has the container-name form (no further filter)", fi.loc(), construct="list_records filter",
+              message=f"list_records decides about a file by `{'; '.join(o[:60] for o in other)}` besides the name pattern: records whose name begins like another record's name (foo / foo2 / foo-bar) disappear from the listing")
 
 
 def r1_sort_first(P, rep, ctx):
@@ -452,7 +470,8 @@ def r7_discard_is_the_users_call(P, rep, ctx, rule="C03.R7"):
                     # the rule is about existing operations (and private / protocol code) starting to discard on their own
                     from .pinned import table as _pinned_table
 
-                    if top.qual not in _pinned_table() and not top.name.startswith("_"):
+                    known_names = {q_.rsplit(".", 1)[-1] for q_ in _pinned_table()}
+                    if top.qual not in _pinned_table() and not top.name.startswith("_") and top.name not in known_names:
                         rep.info(f"C03.R7: new public function {top.qual} delegates to discard_patch (the user's call under another name): not judged")
                         continue
                 rep.check(ok, rule, fi.qual, f"{c.func.attr} is reached from discard_patch only", fi.loc(c), construct=f"{top.name}: {norm(c)[:60]}",
